@@ -213,8 +213,15 @@ pub fn parse_time(buf: &[u8]) -> Result<(NaiveTime, &[u8])> {
             check_component(DateComponent::Minute, &minute).context(InvalidComponentSnafu)?;
             let second: u32 = read_number(&buf[4..6])?;
             check_component(DateComponent::Second, &second).context(InvalidComponentSnafu)?;
+            // a leap second is second 59 plus one second in the fraction
+            let (second, fraction) = if second == 60 {
+                (59, 1_000_000)
+            } else {
+                (second, 0)
+            };
             Ok((
-                NaiveTime::from_hms_opt(hour, minute, second).context(InvalidTimeSnafu)?,
+                NaiveTime::from_hms_micro_opt(hour, minute, second, fraction)
+                    .context(InvalidTimeSnafu)?,
                 &buf[6..],
             ))
         }
@@ -242,6 +249,12 @@ pub fn parse_time(buf: &[u8]) -> Result<(NaiveTime, &[u8])> {
                 let buf = &buf[n..];
                 check_component(DateComponent::Fraction, &fraction)
                     .context(InvalidComponentSnafu)?;
+                // a leap second is second 59 plus one second in the fraction
+                let (second, fraction) = if second == 60 {
+                    (59, fraction + 1_000_000)
+                } else {
+                    (second, fraction)
+                };
                 Ok((
                     NaiveTime::from_hms_micro_opt(hour, minute, second, fraction)
                         .context(InvalidTimeSnafu)?,
